@@ -105,5 +105,9 @@ class ExecutionError(Exception):
 
     def __init__(self, cause: BaseException, partial_state: GraphState) -> None:
         self.partial_state = partial_state
-        super().__init__(str(cause))
+        try:
+            message = str(cause)
+        except Exception:  # a user exception whose __str__ itself fails must still be carried
+            message = type(cause).__name__
+        super().__init__(message)
         self.__cause__ = cause
